@@ -130,6 +130,7 @@ type instantiator struct {
 	newDecl []string
 	fresh   *int
 	max2    int
+	lens    []string
 }
 
 // binders returns the names of the binders if all have sort Int; ok=false otherwise.
@@ -235,6 +236,9 @@ func (in *instantiator) skolemize(f *sx) *sx {
 				m[b.list[0].atom] = name
 				if b.list[1].isAtom() && b.list[1].atom == "Int" {
 					in.cands = append(in.cands, name, "(- "+name+" 1)", "(+ "+name+" 1)")
+					for _, l := range in.lens {
+						in.cands = append(in.cands, "(- "+name+" "+l+")")
+					}
 				}
 			}
 			return in.skolemize(substSx(stripBang(f.list[2]), m))
@@ -305,4 +309,61 @@ func (in *instantiator) hypSkolem(f *sx, positive bool) (*sx, bool) {
 		return body, true
 	}
 	return f, false
+}
+
+// dropQuant weakens a hypothesis by replacing its remaining quantified parts (universals in
+// positive position, existentials in negative position) by true / false respectively. The result
+// is implied by the hypothesis, so a proof from the weakened hypotheses is a proof.
+func dropQuant(f *sx, positive bool) *sx {
+	switch f.head() {
+	case "and", "or":
+		n := &sx{list: []*sx{f.list[0]}}
+		for _, c := range f.list[1:] {
+			n.list = append(n.list, dropQuant(c, positive))
+		}
+		return n
+	case "not":
+		if len(f.list) == 2 {
+			return &sx{list: []*sx{f.list[0], dropQuant(f.list[1], !positive)}}
+		}
+	case "=>":
+		if len(f.list) == 3 {
+			return &sx{list: []*sx{f.list[0], dropQuant(f.list[1], !positive), dropQuant(f.list[2], positive)}}
+		}
+	case "ite":
+		if len(f.list) == 4 && !containsQuant(f.list[1]) {
+			return &sx{list: []*sx{f.list[0], f.list[1], dropQuant(f.list[2], positive), dropQuant(f.list[3], positive)}}
+		}
+	case "forall":
+		if positive {
+			return &sx{atom: "true"}
+		}
+	case "exists":
+		if !positive {
+			return &sx{atom: "false"}
+		}
+	}
+	if containsQuant(f) {
+		// quantifier in a position of unknown polarity: the whole sub-formula is dropped
+		if positive {
+			return &sx{atom: "true"}
+		}
+		return &sx{atom: "false"}
+	}
+	return f
+}
+
+func containsQuant(f *sx) bool {
+	if f.list == nil {
+		return false
+	}
+	if h := f.head(); h == "forall" || h == "exists" {
+		return true
+	}
+	for _, c := range f.list {
+		if containsQuant(c) {
+			return true
+		}
+	}
+	return false
 }
